@@ -33,6 +33,10 @@ func c18(p *core.Prog, r *core.Report) {
 	c18Plumbing(p, r)
 	// bad input fails only that input: pooled codec objects (the typed.Reader
 	// behind thrift header reading) carry no sticky error into the next use
+	// header maps round-trip up to the 16-bit limit: the length checks of the typed buffer are exact (shared with C06-R5)
+	r.Alias("C06-R5", "C18-R2")
+	c06Encode(p, r)
+	r.Alias("C06-R5", "")
 	r.Rule("C18-R5", "E6 census/paths", 3, "pooled codec objects are reset when taken from the pool (shared with C04)")
 	r.Alias("C04-R7", "C18-R5")
 	c04Pools(p, r)
@@ -483,6 +487,27 @@ func c18Plumbing(p *core.Prog, r *core.Report) {
 			}
 		}
 		r.Check(ok, "C18-R4", fname(f), "thrift client sets the decoded response headers on the caller's context", pos, "SetResponseHeaders operand derives from ReadHeaders of the response's arg2", "decoded response headers do not reach the caller's context")
+	}
+	// ... on every successful return (an empty header map included: the
+	// context may still hold the headers of an earlier call)
+	for _, spec := range [][3]string{{"thrift", "client", "Call"}, {"json", "Client", "Call"}, {"json", "", "wrapCall"}} {
+		f := p.Func(spec[0], spec[1], spec[2])
+		if f == nil {
+			continue
+		}
+		isNilRet := func(i ssa.Instruction) bool {
+			ret, ok := i.(*ssa.Return)
+			if !ok {
+				return false
+			}
+			rv := core.ReturnValues(ret)
+			return core.IsNilConst(rv[len(rv)-1])
+		}
+		res := core.ReachAvoiding(f, nil, isNilRet, func(i ssa.Instruction) bool {
+			_, is := core.IsCall(i, "ContextWithHeaders.SetResponseHeaders")
+			return is
+		}, nil)
+		r.Check(!res.Found, "C18-R4", fname(f), "response headers are set on the caller's context on every successful return", p.Pos(f.Pos()), "no nil-error return avoids SetResponseHeaders", "a successful call can return without storing its response headers (e.g. when they are empty): the context keeps an earlier call's headers: "+p.TrailString(res))
 	}
 	if f := mustFunc(p, r, "thrift", "", "readResponse"); f != nil {
 		// the headers returned are those read from Arg2Reader
